@@ -12,7 +12,7 @@ def count(pat, files):
 model = glob.glob(os.path.join(V, "lean/AdfModel/*.lean"))
 props = sorted(glob.glob(os.path.join(V, "lean/AdfProps/*.lean")))
 proofs = glob.glob(os.path.join(V, "lean/AdfProofs/*.lean"))
-FOUND_BY_CHECKS = {'5b0bd90','4b0adf0','0fddb8f','c06b32e','1e9dfbe','8a8eebf','61108fd','e5b4bec','adde754','3a1aaaa','5a2184e','2cb5c61','85d84d5','5ae3d82','1d2557b','807c653','ab7051b','cda3818','0ad6edc','643b492','ae7ff2e','c4c77ee','7f14755'}
+FOUND_BY_CHECKS = {'5b0bd90','4b0adf0','0fddb8f','c06b32e','1e9dfbe','8a8eebf','61108fd','e5b4bec','adde754','3a1aaaa','5a2184e','2cb5c61','85d84d5','5ae3d82','1d2557b','807c653','ab7051b','cda3818','0ad6edc','643b492','ae7ff2e','c4c77ee','7f14755','cdef45e','189b077'}
 fixes = []
 for f in reversed(kf["fixed"]):
     subj = f.get("subject")
@@ -47,9 +47,13 @@ seeds5 = []
 for d in sorted(glob.glob(os.path.join(V, "seeded5/C*"))):
     m = json.load(open(os.path.join(d, "meta.json")))
     seeds5.append(f"| {m['property']} | `{m['file']}` | {m['needs_to_manifest']} | {m['detected_by']} |")
+seeds6 = []
+for d in sorted(glob.glob(os.path.join(V, "seeded6/C*"))):
+    m = json.load(open(os.path.join(d, "meta.json")))
+    seeds6.append(f"| {m['property']} | `{m['file']}` | {m['needs_to_manifest']} | {m['detected_by']} |")
 corr = open(os.path.join(V, "NOTES_corrections.md")).read().split("\n", 1)[1].strip()
 out = (src.replace("@@PERPROP@@", per.strip()).replace("@@FIXES@@", "\n".join(fixes)).replace("@@THEOREMS@@", "\n".join(thm))
-       .replace("@@SEEDS@@", "\n".join(seeds)).replace("@@SEEDS2@@", "\n".join(seeds2)).replace("@@SEEDS3@@", "\n".join(seeds3)).replace("@@SEEDS4@@", "\n".join(seeds4)).replace("@@SEEDS5@@", "\n".join(seeds5)).replace("@@CORRECTIONS@@", corr).replace("@@COVERAGE@@", open(os.path.join(V, "docs_src/coverage.md")).read().strip())
+       .replace("@@SEEDS@@", "\n".join(seeds)).replace("@@SEEDS2@@", "\n".join(seeds2)).replace("@@SEEDS3@@", "\n".join(seeds3)).replace("@@SEEDS4@@", "\n".join(seeds4)).replace("@@SEEDS5@@", "\n".join(seeds5)).replace("@@SEEDS6@@", "\n".join(seeds6)).replace("@@CORRECTIONS@@", corr).replace("@@COVERAGE@@", open(os.path.join(V, "docs_src/coverage.md")).read().strip())
        .replace("@@MODEL_LINES@@", str(sum(len(open(f).read().split("\n")) for f in model)))
        .replace("@@NPROPTHM@@", str(count(r"^(theorem|example)", props))).replace("@@NLEMMA@@", str(count(r"^theorem", proofs)))
        .replace("@@NFIX@@", str(len(kf["fixed"]))))
